@@ -1302,6 +1302,10 @@ func (api *API) Info() serverInfo {
 
 // TranslateKeys handles a TranslateKeyRequest.
 func (api *API) TranslateKeys(body io.Reader) ([]byte, error) {
+	if err := api.validate(apiTranslateKeys); err != nil {
+		return nil, errors.Wrap(err, "validating api method")
+	}
+
 	reqBytes, err := ioutil.ReadAll(body)
 	if err != nil {
 		return nil, NewBadRequestError(errors.Wrap(err, "read body error"))
@@ -1377,6 +1381,7 @@ const (
 	//apiVersion // not implemented
 	apiViews
 	apiApplySchema
+	apiTranslateKeys
 )
 
 var methodsCommon = map[apiMethod]struct{}{
@@ -1411,4 +1416,5 @@ var methodsNormal = map[apiMethod]struct{}{
 	apiShardNodes:           {},
 	apiViews:                {},
 	apiApplySchema:          {},
+	apiTranslateKeys:        {},
 }
